@@ -8,6 +8,7 @@ import (
 	"encoding/json"
 
 	"fmt"
+	"github.com/golang/protobuf/proto"
 	"github.com/hashicorp/raft"
 	"github.com/robustirc/robustirc/internal/robust"
 	"os"
@@ -40,6 +41,10 @@ type c05Case struct {
 	// ReconnectEvery > 0: after every ReconnectEvery-th message a client opens a new session (new
 	// nickname) and goes on with that one, as a client does after it lost its session
 	ReconnectEvery int `json:"reconnect_every,omitempty"`
+	// SkewEvery > 0: every SkewEvery-th message is first committed with a timestamp 300ms behind
+	// this node's clock (what a leader with a slower clock writes before it loses leadership; the
+	// acknowledgement never reaches the client), then the client repeats it here with the same id
+	SkewEvery int `json:"skew_every,omitempty"`
 }
 
 type c05Client struct {
@@ -155,7 +160,7 @@ func c05Execute(c *c05Case, base string) (fail *vh.Failure, labels []string, non
 		}
 		clients = append(clients, &c05Client{cred: cred, name: fmt.Sprintf("s%d", k), creds: []sessionCred{cred}, sentWith: map[string]int{}})
 	}
-	var inFlightDuringFault, resent, reconnects int32
+	var inFlightDuringFault, resent, reconnects, skewed int32
 	var horizons []int64
 	var faultActive int32
 	var wg sync.WaitGroup
@@ -171,6 +176,29 @@ func c05Execute(c *c05Case, base string) (fail *vh.Failure, labels []string, non
 				line := "PRIVMSG #c :" + text
 				if c.PingEvery > 0 && seq%c.PingEvery == c.PingEvery-1 {
 					line = "PING " + text
+				}
+				if c.SkewEvery > 0 && seq%c.SkewEvery == c.SkewEvery-1 {
+					m := &robust.Message{Type: robust.IRCFromClient, Session: robust.Id{Id: cl.cred.Num}, Data: line, ClientMessageId: id,
+						UnixNano: time.Now().Add(-300 * time.Millisecond).UnixNano(), RemoteAddr: "192.0.2.1:4711"}
+					var mb []byte
+					if c.JSON {
+						mb, _ = json.Marshal(m)
+					} else if pb, err := proto.Marshal(m.ProtoMessage()); err == nil {
+						mb = append([]byte{'p'}, pb...)
+					}
+					if mb != nil {
+						done := make(chan struct{})
+						go func() {
+							defer close(done)
+							if fut := cur.Load().(*inode).raft.Apply(mb, 2*time.Second); fut.Error() == nil {
+								atomic.AddInt32(&skewed, 1)
+							}
+						}()
+						select {
+						case <-done:
+						case <-time.After(2 * time.Second):
+						}
+					}
 				}
 				// the bridge's protocol: one message in flight, retry the SAME client message id until acknowledged
 				for time.Now().Before(deadline) {
@@ -350,6 +378,9 @@ func c05Execute(c *c05Case, base string) (fail *vh.Failure, labels []string, non
 	if c.JSON {
 		lab["c05:json-encoding"] = true
 	}
+	if atomic.LoadInt32(&skewed) > 0 {
+		lab["c05:entry-committed-with-earlier-timestamp-then-repeated"] = true
+	}
 	if atomic.LoadInt32(&resent) > 0 {
 		lab["c05:acknowledged-post-repeated-with-same-id"] = true
 	}
@@ -489,7 +520,8 @@ func TestVerifC05(t *testing.T) {
 	rapid.Check(t, func(rt *rapid.T) {
 		c := &c05Case{Clients: rapid.IntRange(2, 4).Draw(rt, "clients"), Messages: rapid.IntRange(5, 40).Draw(rt, "messages"),
 			PingEvery: rapid.SampledFrom([]int{0, 2, 3, 5}).Draw(rt, "pingevery"), ResendEvery: rapid.SampledFrom([]int{0, 1, 3, 4}).Draw(rt, "resendevery"),
-			JSON: rapid.IntRange(0, 3).Draw(rt, "json") == 0, ReconnectEvery: rapid.SampledFrom([]int{0, 0, 2, 4, 7}).Draw(rt, "reconnectevery")}
+			SkewEvery: rapid.SampledFrom([]int{0, 0, 3, 6}).Draw(rt, "skewevery"),
+			JSON:      rapid.IntRange(0, 3).Draw(rt, "json") == 0, ReconnectEvery: rapid.SampledFrom([]int{0, 0, 2, 4, 7}).Draw(rt, "reconnectevery")}
 		nf := rapid.IntRange(1, 5).Draw(rt, "nfaults")
 		for k := 0; k < nf; k++ {
 			c.Faults = append(c.Faults, c05Fault{
